@@ -89,7 +89,7 @@ pub fn run(prop: &str, data: &[u8]) -> Option<(Value, Verdict)> {
             let mut content = vec![b't'];
             content.extend_from_slice(rest);
             std::str::from_utf8(&content).ok()?;
-            let c = c11::Case { content: B(content), html: h[0] & 1 == 1, checks: h[0] & 2 == 2, via_reader: h[0] & 4 == 4 };
+            let c = c11::Case { content: B(content), html: h[0] & 1 == 1, checks: h[0] & 2 == 2, via_reader: h[0] & 4 == 4, reassert: if h[0] & 8 != 0 { u16::from_le_bytes([h[1], h[2]]) } else { 0 } };
             (json!(c), guarded(|| c11::check(&c)))
         }
         "C14" => {
